@@ -85,10 +85,10 @@ type recorder struct {
 	idleG         map[int64]bool // loop goroutine -> inside a blocking epoll_wait
 
 	// descriptor ledger (C07): descriptors created by the framework and not yet closed
-	owned    map[int]string
-	ledgerOn bool
+	owned     map[int]string
+	ledgerOn  bool
 	efdWrites int // writes to a wake-up descriptor (any thread): a task has been queued for a loop
-	canaries map[int]*net.UDPConn
+	canaries  map[int]*net.UDPConn
 
 	// per-connection ground truth for the oracles
 	delivered map[int][]byte // cid -> bytes the kernel returned to read(2)
